@@ -1,4 +1,4 @@
-/* Witness programs for the defects F1..F10 found on the pinned tree (see DESIGN.md section 3).
+/* Witness programs for the defects F1..F11 found on the pinned tree (see DESIGN.md section 3).
  * usage: probe fN <workdir>     exit 0 = behaviour correct, 1 = defect shown, other = crash
  * Build: see findings/run_probes.sh (ASan build of the library objects, hooks on).
  */
@@ -242,13 +242,51 @@ static int f10(void)
 	return after != before;
 }
 
+/* F11: after the merge function reported failure, the next call (no seek in between) returns the key with a partial value */
+static int f11_fail_once;
+static void merge_fail_once(void *clos, const uint8_t *key, size_t lk, const uint8_t *v0, size_t l0,
+			    const uint8_t *v1, size_t l1, uint8_t **mv, size_t *lmv)
+{
+	(void)clos;
+	if (f11_fail_once && lk == 4 && memcmp(key, "k002", 4) == 0) { f11_fail_once = 0; *mv = NULL; *lmv = 0; return; }
+	*mv = malloc(l0 + l1 + 1);
+	memcpy(*mv, v0, l0); memcpy(*mv + l0, v1, l1);
+	*lmv = l0 + l1;
+}
+static int f11(void)
+{
+	char pa[4096];
+	write_k("f11a.mtbl", 5, 1, NULL); snprintf(pa, sizeof pa, "%s", path);
+	write_k("f11b.mtbl", 5, 2, NULL);
+	struct mtbl_reader *ra = mtbl_reader_init(pa, NULL), *rb = mtbl_reader_init(path, NULL);
+	struct mtbl_merger_options *mo = mtbl_merger_options_init();
+	mtbl_merger_options_set_merge_func(mo, merge_fail_once, NULL);
+	struct mtbl_merger *m = mtbl_merger_init(mo);
+	mtbl_merger_add_source(m, mtbl_reader_source(ra)); mtbl_merger_add_source(m, mtbl_reader_source(rb));
+	struct mtbl_iter *it = mtbl_source_iter(mtbl_merger_source(m));
+	const uint8_t *k, *v; size_t lk, lv; int bad = 0;
+	f11_fail_once = 1;
+	assert(mtbl_iter_next(it, &k, &lk, &v, &lv)); assert(mtbl_iter_next(it, &k, &lk, &v, &lv));
+	mtbl_res r = mtbl_iter_next(it, &k, &lk, &v, &lv);
+	printf("third next (merge function fails for k002) -> %s\n", r == mtbl_res_success ? "success" : "failure (expected)");
+	r = mtbl_iter_next(it, &k, &lk, &v, &lv);
+	if (r == mtbl_res_success) { printf("next after the failure, without a seek -> %.*s with a value of %zu bytes (expected: failure until the next seek; the merged value has 3 bytes)\n", (int)lk, k, lv); bad = 1; }
+	else printf("next after the failure, without a seek -> failure (expected)\n");
+	assert(mtbl_iter_seek(it, (const uint8_t *)"k002", 4));
+	r = mtbl_iter_next(it, &k, &lk, &v, &lv);
+	if (r != mtbl_res_success || lk != 4 || memcmp(k, "k002", 4) || lv != 3) { printf("after seek(k002): wrong entry\n"); bad = 1; }
+	else printf("after seek(k002): k002 with the full merged value (expected)\n");
+	mtbl_iter_destroy(&it); mtbl_merger_destroy(&m); mtbl_merger_options_destroy(&mo); mtbl_reader_destroy(&ra); mtbl_reader_destroy(&rb);
+	return bad;
+}
+
 int main(int argc, char **argv)
 {
 	if (argc < 3) return 2;
 	wd = argv[2];
 	setvbuf(stdout, NULL, _IONBF, 0);
-	int (*fs[])(void) = {f1, f2, f3, f4, f5, f6, f7, f8, f9, f10};
+	int (*fs[])(void) = {f1, f2, f3, f4, f5, f6, f7, f8, f9, f10, f11};
 	int n = atoi(argv[1] + 1);
-	if (n < 1 || n > 10) return 2;
+	if (n < 1 || n > 11) return 2;
 	return fs[n - 1]();
 }
